@@ -16,7 +16,7 @@ SHARDS = {"quick": 8, "thorough": 16}
 RULE = ("(the reply may arrive in several TCP segments; a sweep uses nonces for which the genuine reply contains the start marker 83 70, cut at every position) case = (token 64B, key 32B, each passed as bytes or hex string, device nonce, prior state fresh / previously "
         "authenticated with other good credentials / an earlier attempt timed out and its late replies arrived afterwards / the same credentials authenticated more than 12 h ago on this connection, reply mutation). Mutations: genuine; every single-bit flip of the 64-byte "
         "reply body (512, exhaustive); body length 0/32/63/65/96/128; 1..15 extra bytes with the header's pad nibble set to that count; every packet type nibble 0..15 in place of 1; error "
-        "packet; reply built under a different key (random or 1 bit different); hash of a different nonce; silence; only the first 0..71 bytes of the genuine reply followed by the unit's hang-up; any unacceptable reply optionally followed by the unit's hang-up (FIN or RST, seen by the client's loop after or in the same pass as the reply). Oracle: "
+        "packet; reply built under a different key (random or 1 bit different); hash of a different nonce; silence; only the first 0..71 bytes of the genuine reply followed by the unit's hang-up; optionally a status report under the new key or a second genuine handshake reply in the same segment right behind the reply; optionally a slow TCP connect (up to 4.9 s) and a slow reply (up to 1.9 s); any unacceptable reply optionally followed by the unit's hang-up (FIN or RST, seen by the client's loop after or in the same pass as the reply). Oracle: "
         "genuine => Device.authenticate returns, a following refresh() is decrypted by the model under the new session key and "
         "succeeds, Device.token/key == supplied (hex). Otherwise => AuthenticationError exactly, the model saw nothing but "
         "handshake requests carrying the supplied token during the call, Device.token/key unchanged, and (fresh prior) a "
@@ -133,6 +133,16 @@ def check_case(case: dict):
             dev.default_hs_action = ("genuine", {"trunc": mut[1], "then": mut[2]})
         else:
             raise ValueError(kind)
+        if case.get("behind") and dev.default_hs_action[0] == "genuine" and kind not in ("partial",) and not (kind == "genuine" and case["behind"] == "reply2"):
+            # (a second reply behind the *genuine* one is left out: which of the two keys such a unit would go on with is not documented)
+            # another packet arrives in the same segment right behind the (genuine or mutated) reply: a status report under the new
+            # session key, or a second genuine handshake reply.  The reply to the request decides, not what follows it.
+            dev.default_hs_action = ("genuine", dict(dev.default_hs_action[1], behind=case["behind"]))
+        if case.get("connect_delay") and prior == "fresh":
+            # the TCP connect itself is slow (but inside the 5 s connect timeout) and the reply takes a while as well
+            dev.connect_script = [f"slow:{case['connect_delay']}"]
+            if kind == "genuine" and not case.get("cuts"):
+                dev.default_hs_action = ("genuine", dict(dev.default_hs_action[1], delay=case.get("reply_delay", 0.05)))
         if case.get("then") and kind not in ("genuine", "partial", "silence", "nobudget", "raw") and dev.default_hs_action[0] in ("genuine", "error"):
             # the unit hangs up behind its (unacceptable) reply: FIN or RST, seen by the client's loop after or in the same pass as the reply
             dev.default_hs_action = (dev.default_hs_action[0], dict(dev.default_hs_action[1], then=case["then"]))
@@ -288,6 +298,30 @@ def run(ctx) -> None:
                             "mut": ["genuine"], "lost_first": lost}
                     ctx.check(case, lambda c: _run_one(ctx, c))
     ctx.sweep("handshake requests lost before a genuine reply x prior states", lf, True)
+    # slow connects x slow replies (everything inside the documented per-step timeouts: 5 s connect, 2 s per handshake attempt):
+    # the genuine reply authenticates
+    sc = 0
+    for cd in (0.5, 2.5, 4.6, 4.9):
+        for rd in (0.05, 1.0, 1.6, 1.9):
+            for lost in (0, 1, 2):
+                sc += 1
+                if ctx.mine(sc):
+                    tok, key = _creds(90 + sc % 3)
+                    case = {"token": tok.hex(), "key": key.hex(), "nonce": "%02x" % sc, "token_form": "bytes", "key_form": "hex", "prior": "fresh", "mut": ["genuine"],
+                            "connect_delay": cd, "reply_delay": rd, "lost_first": lost}
+                    ctx.check(case, lambda c: _run_one(ctx, c))
+    ctx.sweep("slow connect x slow genuine reply x lost requests", sc, True)
+    # something arrives in the same segment right behind the reply
+    bh = 0
+    for behind in ("data", "reply2"):
+        for prior in ("fresh", "authed", "expired"):
+            for m in (["genuine"], ["flip", 0], ["flip", 300], ["flip", 511], ["wrongkey", "random"], ["othernonce"], ["len", 63], ["ptype", 3]):
+                bh += 1
+                if ctx.mine(bh):
+                    tok, key = _creds(80 + bh % 4)
+                    case = {"token": tok.hex(), "key": key.hex(), "nonce": "%02x" % bh, "token_form": "bytes", "key_form": "bytes", "prior": prior, "mut": m, "behind": behind}
+                    ctx.check(case, lambda c: _run_one(ctx, c))
+    ctx.sweep("a packet in the same segment right behind the reply x prior state x mutation", bh, True)
     n = 0
     sets = 2 if ctx.quick else 8
     for s in range(sets):
@@ -327,5 +361,6 @@ def run(ctx) -> None:
         "token_form": st.sampled_from(["bytes", "hex"]), "key_form": st.sampled_from(["bytes", "hex"]),
         "prior": st.sampled_from(["fresh", "fresh", "authed", "late", "expired"]), "mut": mut, "id": gens.device_ids(48)},
         optional={"cuts": st.lists(st.integers(1, 71), min_size=1, max_size=4, unique=True).map(sorted), "gap": st.sampled_from([0.0, 0.01, 0.5]),
-                  "lost_first": st.sampled_from([0, 0, 1, 2]), "then": st.sampled_from(["fin", "rst", "fin_same", "rst_same"])})
+                  "lost_first": st.sampled_from([0, 0, 1, 2]), "then": st.sampled_from(["fin", "rst", "fin_same", "rst_same"]), "behind": st.sampled_from(["data", "reply2"]),
+                  "connect_delay": st.sampled_from([0.5, 2.5, 4.6]), "reply_delay": st.sampled_from([0.05, 1.6, 1.9])})
     ctx.hyp("generated", cases, lambda c: _run_one(ctx, c), ctx.n(2400, 128000))
